@@ -116,7 +116,7 @@ def apply_call(comp, call):
         if kind == 'addnb':
             comp.add_jumper(order=9)                       # no bib given: the default bib '0'
         elif kind == 'add':
-            comp.add_jumper(bib=benc(arg), order=(BIBS.index(arg) + 1) if arg in BIBS else 9)
+            comp.add_jumper(bib=benc(arg), order=oenc((BIBS.index(arg) + 1) if arg in BIBS else 9))
         elif kind == 'bar':
             comp.set_bar_height(enc(arg))
         else:
@@ -133,7 +133,7 @@ def log_entry(call):
     if kind == 'addnb':
         return ('add_jumper', dict(order=9))
     if kind == 'add':
-        return ('add_jumper', dict(bib=benc(arg), order=(BIBS.index(arg) + 1) if arg in BIBS else 9))
+        return ('add_jumper', dict(bib=benc(arg), order=oenc((BIBS.index(arg) + 1) if arg in BIBS else 9)))
     if kind == 'bar':
         return ('set_bar_height', enc(arg))
     return (LETTER[kind], benc(arg))
@@ -190,6 +190,9 @@ def set_codec(name):
         enc = {k: float(base + Decimal(k) / 100) for k in ks}
     elif name == 'decimal-cm':      # 1 cm steps as two-place Decimals
         enc = {k: base + Decimal(k) / 100 for k in ks}
+    elif name == 'float-mm':        # 5 mm steps as binary floats: bars less than a centimetre apart (2.12, 2.125 - exactly representable, so any rounding
+        # to centimetres goes half-even - 2.13, 2.135 ...); the first bar of the alphabet (k=2) is 2.12
+        enc = {k: float(Decimal('2.110') + Decimal(k) * 5 / 1000) for k in ks}
     elif name == 'decimal-mm':      # 5 mm steps as three-place Decimals (pole vault bars in imperial conversions)
         enc = {k: Decimal('2.270') + Decimal(k) * 5 / 1000 for k in ks}
     elif name == 'decimal-10m':     # 1 cm steps crossing 10 metres: 9.99, 10.00, 10.01 (pole vault in feet; label width and text order change)
@@ -213,11 +216,22 @@ BIBCODEC = None     # (name, {name: api value}, {api value or its str(): name})
 _INT_BIBS = {'A': 81, 'B': 53, 'C': 7, 'D': 2197, 'E': 2878, 'F': 10, 'G': 9}
 
 
+ORDER_TEXT = False  # jumping order passed as text ('1', '2' ... as it arrives from a start list file)
+
+
+def oenc(o):
+    return str(o) if ORDER_TEXT else o
+
+
 def set_bibs(name):
-    global BIBCODEC, NOBIB
+    global BIBCODEC, NOBIB, ORDER_TEXT
     NOBIB = False
+    ORDER_TEXT = False
     if name is None:
         BIBCODEC = None
+    elif name == 'order-text':
+        BIBCODEC = None
+        ORDER_TEXT = True
     elif name == 'default':
         BIBCODEC = None
         NOBIB = True
